@@ -132,11 +132,17 @@ func cmdMgr(args []string) {
 	dir := fs.String("dir", os.TempDir(), "scratch directory")
 	backups := fs.Bool("backups", false, "enable shard backups on unload")
 	stepMs := fs.Int("step-ms", 1500, "timeout per step in ms")
+	stress := fs.Int("stress", 0, "number of free-running stress rounds after the behaviours")
+	seed := fs.Int64("seed", 1, "seed of the stress rounds")
 	fs.Parse(args)
-	bs, err := mgrd.ReadBehaviours(*beh)
-	if err != nil {
-		fmt.Fprintln(os.Stderr, err)
-		os.Exit(2)
+	var bs [][]mgrd.Step
+	var err error
+	if *beh != "" {
+		bs, err = mgrd.ReadBehaviours(*beh)
+		if err != nil {
+			fmt.Fprintln(os.Stderr, err)
+			os.Exit(2)
+		}
 	}
 	tw, err := trace.NewWriter(*out)
 	if err != nil {
@@ -158,8 +164,13 @@ func cmdMgr(args []string) {
 			stuck++
 		}
 	}
+	for i := 0; i < *stress; i++ {
+		if mgrd.Stress(i, *seed*100000+int64(i), *dir, tw, mgrd.Opts{StepTimeout: time.Duration(*stepMs) * time.Millisecond}) {
+			stuck++
+		}
+	}
 	tw.Flush()
-	res, _ := json.Marshal(map[string]any{"behaviours": len(bs), "drifted": drifted, "stuck": stuck, "lines": tw.N, "drift_samples": driftSamples})
+	res, _ := json.Marshal(map[string]any{"behaviours": len(bs), "stress_rounds": *stress, "drifted": drifted, "stuck": stuck, "lines": tw.N, "drift_samples": driftSamples})
 	fmt.Println(string(res))
 }
 
